@@ -466,12 +466,14 @@ def split_args(m, text, op, cl, angle=False):
 
 
 def r5_recursor(text, recursor_bodies):
-    """R5: `RECV.unary|binary|ternary|subst(F, manager, A, B)?` -> inlined body of
-    SequentialRecursor::<method> read from recursor.rs on this run."""
+    """R5: `RECV.<method>(args..)?` for every method of `impl Recursor<M> for SequentialRecursor`
+    (read from recursor.rs on this run) -> the method body with parameters replaced by the
+    arguments (tuple arguments by projection), `self` by RECV, final `Ok(X)` by `X`."""
     cnt = 0
+    meths = [k for k in recursor_bodies if k != 'should_switch_to_sequential']
     while True:
         m = mask(text)
-        mm = re.search(r'\b(\w+)\s*\.\s*(unary|binary|ternary|subst)\s*\(', m)
+        mm = re.search(r'\b(\w+)\s*\.\s*(%s)\s*\(' % '|'.join(sorted(meths, key=len, reverse=True)), m)
         if not mm:
             return text, cnt
         recv, meth = mm.group(1), mm.group(2)
@@ -483,9 +485,9 @@ def r5_recursor(text, recursor_bodies):
         if m[k] != '?':
             raise AnchorLost('R5: recursor call without `?`')
         args = split_args(m, text, op, cl)
-        if len(args) != 4:
-            raise AnchorLost('R5: expected 4 arguments, got %d' % len(args))
-        F, mgr, A, B = args
+        params, body = recursor_bodies[meth]
+        if not params or params[0] != 'self' or len(params) - 1 != len(args):
+            raise AnchorLost('R5: %s: parameters %r do not match %d arguments' % (meth, params, len(args)))
 
         def tup(x):
             x = x.strip()
@@ -494,46 +496,44 @@ def r5_recursor(text, recursor_bodies):
                 c2 = match_close(mx, 0)
                 if c2 == len(x) - 1:
                     return split_args(mx, x, 0, c2)
-            return [x]
-        At, Bt = tup(A), tup(B)
-        params, body = recursor_bodies[meth]
-        # params: self, op, manager, a, b
-        if [p for p in params] != ['self', 'op', 'manager', 'a', 'b']:
-            raise AnchorLost('R5: recursor parameter list changed: %r' % (params,))
+            return None
         b = body.strip()
         assert b[0] == '{' and b[-1] == '}'
         b = b[1:-1]
         mb = mask(b)
-        # final expression must be Ok(X)
         fm = re.search(r'Ok\s*\((.*)\)\s*$', mb.rstrip(), re.S)
         if not fm:
             raise AnchorLost('R5: recursor body does not end in Ok(..)')
         final = b[fm.start(1):fm.end(1)]
         b = b[:fm.start()] + final
 
-        def sub_ident(s, name, repl):
-            ms = mask(s)
+        def sub_ident(s_, name, repl):
+            ms = mask(s_)
             out = []
             last = 0
             for x in re.finditer(r'(?<![\w.])' + re.escape(name) + r'\b', ms):
-                out.append(s[last:x.start()])
+                out.append(s_[last:x.start()])
                 out.append(repl)
                 last = x.end()
-            out.append(s[last:])
+            out.append(s_[last:])
             return ''.join(out)
-        # tuple projections first
-        for nm, T in (('a', At), ('b', Bt)):
-            if len(T) == 1:
-                b = sub_ident(b, nm, '(' + T[0] + ')') if False else sub_ident(b, nm, T[0])
-            else:
-                for idx, val in enumerate(T):
-                    b = re.sub(r'(?<![\w.])' + nm + r'\.' + str(idx) + r'\b', lambda _m, v=val: v, b)
-                if re.search(r'(?<![\w.])' + nm + r'\b(?!\s*[:(])', mask(b)) and nm not in At + Bt:
-                    # leftover use of whole tuple
-                    pass
-        b = sub_ident(b, 'op', F)
-        b = sub_ident(b, 'self', recv)
-        b = sub_ident(b, 'manager', mgr)
+        # two-phase substitution through unique placeholders (arguments may mention parameter names)
+        ph = {}
+        for idx, (pn, arg) in enumerate(zip(params[1:], args)):
+            T = tup(arg)
+            if T is not None:
+                for j, val in enumerate(T):
+                    key = '\x00P%d_%d\x00' % (idx, j)
+                    ph[key] = val
+                    b = re.sub(r'(?<![\w.])' + re.escape(pn) + r'\.' + str(j) + r'\b', lambda _m, kk=key: kk, b)
+            key = '\x00P%d\x00' % idx
+            ph[key] = arg
+            b = sub_ident(b, pn, key)
+        key = '\x00SELF\x00'
+        ph[key] = recv
+        b = sub_ident(b, 'self', key)
+        for kk, val in ph.items():
+            b = b.replace(kk, val)
         text = text[:mm.start()] + '{' + b + '}' + text[k + 1:]
         cnt += 1
 
